@@ -6,7 +6,9 @@
      kind "size"  : the same for large values (blobs/strings elided): only lengths are recorded
      kind "clump" : elements were sent with send_clumped_bundles / sync; out = the datagrams handed
                     to the interface (length, element ids in order, whether a /sync was appended)
-     kind "dsend" : SynthDef._do_send with a definition of n bytes: which command went out, its length
+     kind "dsend" : a definition of n bytes sent through SynthDef._do_send / send / add / store with a completion
+                    message in any documented form (None, message, bundle, function of the server returning
+                    those): which command went out, its length
    The verdict is computed with the operators of Osc.tla / OscSize.tla only.               *)
 EXTENDS OscSize, Json, IOUtils
 Traces == JsonDeserialize(IOEnv.VERIF_TRACES)
@@ -46,9 +48,10 @@ WhyClump(t) ==
     ELSE IF \E g \in 1..Len(dg) : dg[g].len > Limit THEN "WithinLimit"
     ELSE IF \E g \in 1..Len(dg) : dg[g].len # DgramLen(split[g], real, SyncElem * dg[g].sync) THEN "EncLen"
     ELSE "ok"
+\* t.cm may be a function of the server ([t |-> "fn", ret |-> ...]): the datagram carries the resolved value
 WhyDsend(t) ==
-    LET v == [t |-> "m", a |-> <<47, 100, 95, 114, 101, 99, 118>>, args |-> <<[t |-> "b", z |-> t.n], t.cm>>] IN
-    IF t.out.cmd # "/d_recv" THEN "ok"            \* falling back to a file is always allowed
+    LET v == DRecvMsg(t.n, t.cm) IN
+    IF t.out.cmd # "/d_recv" THEN "ok"            \* falling back to a file (or refusing) is always allowed
     ELSE IF t.out.len # EncLen(v) THEN "EncLen"
     ELSE IF t.out.len > Limit THEN "WithinLimit"
     ELSE "ok"
@@ -60,6 +63,9 @@ Drift(t) ==
     IF t.kind \in {"enc", "size"}
     THEN IF t.out.k = "ok" /\ ~MustRefuse(t.v, t.off) /\ Predictable(t.v)
             /\ (t.pred.k # "ok" \/ t.pred.n # Pred(t.v)) THEN "prediction differs from the L2 formula" ELSE ""
+    ELSE IF t.kind = "dsend"
+    THEN IF t.out.cmd \in {"/d_recv", "/d_load"} /\ DSendChoice(t.n, t.cm) # t.out.cmd
+         THEN "d_recv / d_load choice differs from the L2 formula" ELSE ""
     ELSE IF t.kind = "clump"
     THEN IF t.out.k = "ok" /\ t.pred # <<>>
             /\ [g \in 1..Len(t.out.dgrams) |-> t.out.dgrams[g].ids] # SplitAt(t.site, t.pred)
